@@ -390,8 +390,11 @@ fn optimize_stmt(
           loop_value,
         })
         .collect_vec();
-      if let Some((Statement::Break(e), rest)) = stmts.split_last() {
-        // Now we know that the loop will only loop once!
+      if let Some((Statement::Break(e), rest)) = stmts.split_last()
+        && !super::loop_induction_analysis::stmts_contains_break(rest)
+      {
+        // Now we know that the loop will only loop once, and that it leaves at its end: no
+        // earlier (conditional) break, which would end up outside of any loop, is left in `rest`.
         for v in loop_variables {
           value_cx.checked_bind(v.name, v.initial_value);
         }
@@ -510,8 +513,10 @@ fn try_optimize_loop_for_some_iterations(
       binary_expr_cx,
       &mut first_run_optimized_stmts,
     );
-    if let Some(last_stmt) = first_run_optimized_stmts.last() {
-      if !last_stmt.is_break() {
+    if let Some((last_stmt, rest)) = first_run_optimized_stmts.split_last() {
+      // The loop can only be replaced by its first iteration if that iteration leaves at its end
+      // and nowhere else: an earlier (conditional) break would end up outside of any loop.
+      if !last_stmt.is_break() || super::loop_induction_analysis::stmts_contains_break(rest) {
         pop_scope(value_cx, index_access_cx, binary_expr_cx);
         return vec![Statement::While { loop_variables, statements: stmts, break_collector }];
       }
